@@ -667,6 +667,13 @@ def check(run):
             run.count("fit-raised:" + type(e).__name__)
         fresh = curves.make_indentation(cols, k=k)
         states["fresh"] = fresh
+        # settings but neither a fit nor the fit's abscissa column
+        notip = curves.make_indentation(cols, k=k)
+        notip.apply_preprocessing(["correct_force_offset"])
+        states["preprocessed-without-tip-position"] = notip
+        sonly = curves.make_indentation(cols, k=k)
+        sonly.fit_properties["model_key"] = "hertz_para"
+        states["settings-only"] = sonly
         pre = curves.make_indentation(cols, k=k)
         with warnings.catch_warnings():
             warnings.simplefilter("ignore")
